@@ -229,11 +229,22 @@ class Canon:
     def c_IfExp(self, e):
         return ("ifexp", self(e.test), self(e.body), self(e.orelse))
 
+    # positional parameters of a few standard-library constructors: positional and keyword spellings coincide
+    SIGNATURES = {
+        "datetime.datetime": ("year", "month", "day", "hour", "minute", "second", "microsecond", "tzinfo"),
+        "datetime.timedelta": ("days", "seconds", "microseconds", "milliseconds", "minutes", "hours", "weeks"),
+        "datetime.date": ("year", "month", "day"),
+    }
+
     def c_Call(self, e):
         f = self(e.func)
         args = tuple(self(a) for a in e.args)
-        kws = tuple(sorted(((k.arg or "**", self(k.value)) for k in e.keywords), key=repr))
-        return ("call", f, args, kws)
+        kws = [((k.arg or "**", self(k.value))) for k in e.keywords]
+        sig = self.SIGNATURES.get(norm(e.func))
+        if sig is not None and len(args) <= len(sig) and not any(isinstance(a, ast.Starred) for a in e.args) and all(k.arg for k in e.keywords):
+            kws = list(zip(sig, args)) + kws
+            args = ()
+        return ("call", f, args, tuple(sorted(kws, key=repr)))
 
     def c_Lambda(self, e):
         env = {}
